@@ -311,6 +311,18 @@ fn ipa(ctx: &mut Ctx, rng: &mut ChaCha20Rng) {
     if let (Ok(p1), Ok(p2)) = (p1, p2) {
         let ok = p1.hiding_comm.is_some() && p1.rand.is_some() && p1.hiding_comm != p2.hiding_comm && p1.rand != p2.rand;
         ctx.check(ok, "fresh-seeds-distinct-proofs", "open", desc.clone(), || json!({"hiding_comm_present": p1.hiding_comm.is_some()}));
+        // the blinding polynomial of a hiding opening spans the whole key (sup + 1 coefficients), whatever the degree
+        // of the opened polynomial: at least sup + 2 scalars are drawn, and no cross term of the proof is the identity
+        {
+            let mut mr = crate::probe::mon_rng(13);
+            let polys = [&tx.polys[0]];
+            let r = attempt(|| <PcOf<S> as PolynomialCommitment<JFr, DensePolynomial<JFr>>>::open(&tx.w.ck, polys, tx.c.comms.iter(), &z, &mut tx.sponge(), tx.c.states.iter(), Some(&mut mr)));
+            if let Ok(pf) = r {
+                let enough = mr.bytes >= ((sup + 2) * 32) as u64;
+                let no_identity = pf.l_vec.iter().chain(pf.r_vec.iter()).all(|g| !ark_ec::AffineRepr::is_zero(g));
+                ctx.check(enough && no_identity, "proof-blinding-covers-the-key", "open", desc.clone(), || json!({"rng_bytes": mr.bytes, "required": (sup + 2) * 32, "identity_cross_terms": !no_identity, "degree": tx.polys[0].degree()}));
+            }
+        }
         // hiding open without RNG must not return a proof
         let polys = [&tx.polys[0]];
         let r = attempt(|| <PcOf<S> as PolynomialCommitment<JFr, DensePolynomial<JFr>>>::open(&tx.w.ck, polys, tx.c.comms.iter(), &z, &mut tx.sponge(), tx.c.states.iter(), None));
